@@ -48,7 +48,7 @@ def harnesses():
                              covers_required=(["overflows"] if can_over else []) + (["fits"] if nl > 0 or not can_over else [])))
     SMALLDOM = ("unit-limb sub-domain: every limb of one operand 0 or 1, the other operand and the accumulator FULL, one harness per operand "
                 "order; UF layer, exact on this sub-domain (all products fixed by the axioms 0*x = 0, 1*x = x)")
-    for (nl, na, nb, tier) in [(2, 2, 1, "quick"), (3, 2, 2, "thorough")]:   # (4,2,2), (3,3,2), (4,3,3), (5,3,3): no result in 1500 s
+    for (nl, na, nb, tier) in [(2, 2, 1, "quick"), (3, 2, 2, "quick"), (4, 2, 2, "thorough"), (3, 3, 2, "thorough")]:   # per operand order: (3,2,2) 170 s; (4,3,3), (5,3,3): no result in 1500 s (both orders in one harness)
         w = max(nl, na + nb) + 1
         for sw in (0, 1):
             out.append(H("c15_addmul_unit_%d_%d_%d_%s" % (nl, na, nb, "ba" if sw else "ab"), "C15",
